@@ -52,6 +52,10 @@ def shaped(g):
                 b = mapgen.SL(mapgen.P(b0) if bp else b0)
                 out.append(("each-%s-%s" % ("ptr" if ap else "val", "ptr" if bp else "val"),
                             mapgen.mk_spec([mapgen.F("List", a), mapgen.F("Name", mapgen.STR)], [mapgen.F("List", b), mapgen.F("Name", mapgen.STR)])))
+    # the same struct type embedded twice at different depths: the shallower occurrence is the one that is mapped
+    for side in ("src", "dest"):
+        out.append(("embedded-twice-" + side, g.pair(embeds=1.0, depth2=1.0, deep=0.95, diamond=1.0, diamond_side=side, selfembed=0.0,
+                                                     kinds=["same", "conv"], names=["ident"], n=(4, 6), shadow=0)))
     # cyclic embedding: the pairs are those of the finite unfolding
     for side in ("src", "dest"):
         for v in ("self", "mutual", "inner"):
